@@ -168,6 +168,18 @@ func c17Configs(tier string) []c17cfg {
 			cfgs = append(cfgs, c17cfg{cmd: x[0], pre: x[1], scripts: []pscript{ok}, to: 0, flapOld: f})
 		}
 	}
+	// several targets still unhealthy when the deploy timeout expires
+	var nevers []pscript
+	for _, sc := range scripts {
+		if strings.HasPrefix(sc.name, "never-") {
+			nevers = append(nevers, sc)
+		}
+	}
+	if len(nevers) >= 2 {
+		cfgs = append(cfgs, c17cfg{cmd: "deploy", pre: "absent", scripts: []pscript{nevers[0], nevers[1]}, to: 0})
+		cfgs = append(cfgs, c17cfg{cmd: "deploy", pre: "active", scripts: []pscript{nevers[1], ok, nevers[0]}, to: 0})
+		cfgs = append(cfgs, c17cfg{cmd: "rollout", pre: "rollout", scripts: []pscript{nevers[0], nevers[0]}, to: 0})
+	}
 	// a second command on the SAME service while a pause with twice the drain timeout is still draining: it is bound by its
 	// own timeouts, not by the first command's (return time not compared with the reference, only the bound)
 	for _, x := range []string{"stop", "pause", "deploy"} {
